@@ -355,7 +355,7 @@ func TestC06LoginWindow(t *testing.T) {
 	defer ev.Flush()
 	rapid.Check(t, func(rt *rapid.T) {
 		option := rapid.IntRange(0, 2).Draw(rt, "option")
-		when := rapid.SampledFrom([]string{"before-add", "after-add"}).Draw(rt, "when")
+		when := rapid.SampledFrom([]string{"before-add", "after-add", "before-delete"}).Draw(rt, "when")
 		flow := rapid.SampledFrom([]string{"123", "15"}).Draw(rt, "flow")
 		prot := hlref.AccessOf(hlref.PrivCannotBeDiscon, hlref.PrivReadChat)
 		inWorld(rt, hlsim.Options{Agreement: "a", Accounts: []hlsim.AccountSpec{acct("admin", "Admin", "adminpw", hlref.AccessOf(hlref.PrivDisconUser)), {Login: "vip", Name: "Vip", Password: "vpw", Access: prot}}}, func(rt *rapid.T, w *hlsim.World) {
@@ -365,6 +365,12 @@ func TestC06LoginWindow(t *testing.T) {
 			done := make(chan struct{})
 			realQuiesce := hlsim.Quiesce
 			defer func() { hlsim.Quiesce = realQuiesce }()
+			var v *hlsim.Conn
+			if when == "before-delete" {
+				// the other end of the session: the protected user is fully logged in and then hangs up; the request is
+				// handled while its connection is being taken out of the registry (its own lock is held there)
+				v = loginAs(rt, w, "10.6.9.2:1", "vip", "vpw", "vip")
+			}
 			pm.arm(when, func() {
 				hlsim.Quiesce = func() { time.Sleep(time.Millisecond) }
 				fs := []hlref.Field{fld(hlref.FUserID, hlref.BE16(2))} // the id the new connection gets
@@ -374,7 +380,24 @@ func TestC06LoginWindow(t *testing.T) {
 				admin.Request(hlref.TranDisconnectUser, fs...)
 				close(done)
 			})
-			v := w.Connect("10.6.9.2:1")
+			if when == "before-delete" {
+				v.Close()
+				select {
+				case <-done:
+				case <-time.After(time.Minute):
+					rt.Fatalf("harness: the hang-up never reached the registry")
+				}
+				hlsim.Quiesce = realQuiesce
+				settle(5 * time.Second)
+				if b, _ := w.Bans.IsBanned("10.6.9.2"); b {
+					rt.Fatalf("the protected user's address was banned by a disconnect request (option %d) handled while it was hanging up", option)
+				}
+				if fileHas(filepath.Join(w.Cfg, "Banlist.yaml"), "10.6.9.2") {
+					rt.Fatalf("the protected user's address is in the ban file (disconnect request with option %d handled while it was hanging up)", option)
+				}
+				return
+			}
+			v = w.Connect("10.6.9.2:1")
 			if !v.Handshake() {
 				rt.Fatalf("harness: handshake")
 			}
